@@ -441,6 +441,11 @@ func rulePtrFillGuard(c *Ctx) {
 						}
 					}
 				}
+				// ... whatever the statement shape: on the effect normal form, no path hands the filled value to an
+				// expander unless the error of the filling call is known to be nil there
+				if !succeeded && c.filledUsedOnlyOnSuccess(fam, fd, call) {
+					succeeded = true
+				}
 				c.ob(rule, fmt.Sprintf("%s:deref(%s)#%d:resolved", fn, v.Name(), n), st.Pos(), succeeded,
 					"the pointer filled by resolving the $ref is used where the error of that resolution is not known to be nil: under ContinueOnError a target of the wrong JSON type leaves a half-decoded empty value, which then replaces the $ref instead of the $ref staying in place")
 				return true
@@ -504,4 +509,85 @@ func ruleRootRegistered(c *Ctx) {
 		c.ob(rule, fmt.Sprintf("%s:return#%d", fn, n), rs.Pos(), underNil,
 			"the helper can return without registering a non-nil root (e.g. because some root is already cached): with a reused cache, the element is then expanded against the previous call's root")
 	})
+}
+
+// filledUsedOnlyOnSuccess: on every structural path of fd (family members and the stop predicate opaque), a value
+// that the call `fill` stored through a pointer argument reaches another family call only where the error result
+// of `fill` is known to be nil.
+func (c *Ctx) filledUsedOnlyOnSuccess(fam *expFamily, fd *ast.FuncDecl, fill *ast.CallExpr) bool {
+	s := &effsim{c: c, outValues: true, inline: func(f *types.Func) bool {
+		if fam.members[f] || c.isStopPredicateFunc(f) {
+			return false
+		}
+		return c.reaches(f, func(h *types.Func) bool { return h != f && fam.members[h] })
+	}}
+	st := &sstate{vars: map[types.Object]sval{}, heap: map[string]sval{}, hkeys: map[string]svPath{}}
+	if r := c.recvObj(fd); r != nil {
+		st.vars[r] = svPath{root: r}
+	}
+	for i := 0; ; i++ {
+		p := c.paramObj(fd, i)
+		if p == nil {
+			break
+		}
+		st.vars[p] = svPath{root: p}
+	}
+	if f, ok := c.Info.Defs[fd.Name].(*types.Func); ok {
+		s.stack = append(s.stack, f)
+	}
+	var paths []spath
+	s.callBody(fd.Type, fd.Body, st, func(st *sstate, rets []sval) {
+		paths = append(paths, spath{conds: st.conds, effs: st.effs, rets: rets})
+		s.npaths++
+		if s.npaths > effsimMaxPaths {
+			s.fail("too many paths")
+		}
+	})
+	if s.unsupported != "" || len(paths) == 0 {
+		return false
+	}
+	uses := 0
+	for _, p := range paths {
+		for _, e := range p.effs {
+			if e.kind != "call" || e.call.call == fill {
+				continue
+			}
+			g, isF := e.call.callee.(*types.Func)
+			if !isF || !fam.members[g] {
+				continue
+			}
+			for _, a := range e.call.args {
+				usesFilled := false
+				var fillID int
+				svWalk(a, func(x sval) {
+					if sc, ok := x.(svCall); ok && sc.call == fill && sc.idx >= 100 {
+						usesFilled, fillID = true, sc.id
+					}
+				})
+				if !usesFilled {
+					continue
+				}
+				uses++
+				// the error result of the fill: its last result
+				errIdx := 0
+				if tup, ok := c.typeOf(fill).(*types.Tuple); ok {
+					errIdx = tup.Len() - 1
+				}
+				known := false
+				for _, cd := range p.conds {
+					if b, ok := cd.v.(svBin); ok && b.op == token.NEQ && cd.neg {
+						if sc, ok := b.x.(svCall); ok && sc.id == fillID && sc.idx == errIdx {
+							if _, isNil := b.y.(svNil); isNil {
+								known = true
+							}
+						}
+					}
+				}
+				if !known {
+					return false
+				}
+			}
+		}
+	}
+	return uses > 0
 }
